@@ -155,6 +155,41 @@ func (g *gen) domainText(d int) string {
 	}
 }
 
+// cond is the expression of a control clause: any expression, or (a third of the time) a
+// parenthesised expression that holds a composite literal where only the parentheses make it legal.
+func (g *gen) cond(d int) string {
+	if g.pick(3) == 0 {
+		return g.parenLit(d)
+	}
+	return g.expr(d)
+}
+
+// parenLit: "(" e ")" where e has an unparenthesised composite literal (typed, qualified, untyped
+// XGo literal, comprehension) as callee receiver, operand, index or argument.
+func (g *gen) parenLit(d int) string {
+	lit := g.of("T{1}", "T{a: "+g.expr(d-1)+"}", "pkg.T{}", "[]int{1, 2}", `{"a": 1}`, "[x for x in xs]", "map[string]int{}", "&T{}", "[2]T{}")
+	var e string
+	switch g.pick(8) {
+	case 0:
+		e = lit + ".ok()"
+	case 1:
+		e = lit + ".f(" + g.expr(d-1) + ").g()"
+	case 2:
+		e = lit + ".len() > 0"
+	case 3:
+		e = lit + " == " + g.operand(d-1)
+	case 4:
+		e = "f(" + lit + ")"
+	case 5:
+		e = lit + ".a"
+	case 6:
+		e = "m[" + lit + "]"
+	default:
+		e = g.operand(d-1) + " != " + lit + ".v"
+	}
+	return "(" + e + ")"
+}
+
 // expr generates an expression of nesting depth at most d.
 func (g *gen) expr(d int) string {
 	if d <= 0 {
@@ -323,21 +358,21 @@ func (g *gen) stmt(d int) string {
 	case 9:
 		return "return " + g.of("", g.exprList(d-1, 1, 2))
 	case 10:
-		s := "if " + g.of("", g.simple(d-1)+"; ") + g.expr(d-1) + " " + g.block(d-1)
+		s := "if " + g.of("", g.simple(d-1)+"; ") + g.cond(d-1) + " " + g.block(d-1)
 		if g.pct(40) {
 			s += " else " + g.of(g.block(d-1), "if "+g.expr(d-1)+" "+g.block(d-1))
 		}
 		return s
 	case 11:
-		return "for " + g.of("", g.expr(d-1)+" ", "i := 0; i < n; i++ ", "; ; ", "i := 0; ; ") + g.block(d-1)
+		return "for " + g.of("", g.cond(d-1)+" ", "i := 0; i < n; i++ ", "; ; ", "i := 0; ; ", "i := 0; "+g.cond(d-1)+"; i++ ") + g.block(d-1)
 	case 12:
-		return "for " + g.of("i, v := range xs ", "k := range m ", "range 10 ", "_, v = range xs ", "i := range 10 ") + g.block(d-1)
+		return "for " + g.of("i, v := range xs ", "k := range m ", "range 10 ", "_, v = range xs ", "i := range 10 ", "_, v := range "+g.parenLit(d-1)+" ") + g.block(d-1)
 	case 13, 14, 15:
 		return g.forPhrase(d, true) + " " + g.block(d-1)
 	case 16:
 		return "for " + g.rangeExpr(d-1) + " " + g.block(d-1)
 	case 17:
-		return "switch " + g.of("", g.expr(d-1)+" ", g.simple(d-1)+"; "+g.expr(d-1)+" ") + "{\ncase " + g.exprList(d-1, 1, 2) + ":\n" + g.stmts(d-1, 0, 2) + g.of("", "fallthrough\n") + "default:\n" + g.stmts(d-1, 0, 1) + "}"
+		return "switch " + g.of("", g.cond(d-1)+" ", g.simple(d-1)+"; "+g.cond(d-1)+" ") + "{\ncase " + g.exprList(d-1, 1, 2) + ":\n" + g.stmts(d-1, 0, 2) + g.of("", "fallthrough\n") + "default:\n" + g.stmts(d-1, 0, 1) + "}"
 	case 18:
 		return "switch " + g.of("v := x.(type)", "x.(type)", "t := f(); v := t.(type)") + " {\ncase " + g.of("int", "int, string", "*T", "nil", "[]int") + ":\n" + g.stmts(d-1, 0, 1) + "}"
 	case 19:
